@@ -1,2 +1,114 @@
-(* statements land with the deep pass; see Proofs *)
-Require Import Model.Base.
+(* C03 — the `batch` feature changes how pixels travel, not what is drawn. Statements only; proofs in
+   Proofs/BatchP.v (the batcher) and Proofs/ProgramP.v (what the controller decodes). *)
+Require Import Model.Base Model.Orient Model.Dcs Model.Events Model.Builder Model.Rect Model.Batch Model.Display.
+Require Import Oracle.Spec Oracle.Controller Oracle.DrawSpec.
+Require Import Proofs.DcsP Proofs.WindowP Proofs.CtlP Proofs.DrawP Proofs.ClipP Proofs.BatchP Proofs.OrientStateP
+               Proofs.ProgramP.
+Open Scope Z_scope.
+
+(* RowIterator + BlockIterator, any capacities 1 <= MAX_ROW_SIZE <= MAX_BLOCK_SIZE, any pixel list with
+   coordinates in [0, 65534], either build profile: the iterators finish without panicking
+   (`expect("never")`, `y_bottom + 1`), and the emitted blocks, read row-major, are EXACTLY the input
+   list — same pixels, same colours, same order; every block is a full rectangle within capacity *)
+Theorem C03_rows_blocks_flatten : forall md cap bcap (ps : list pixel),
+  (1 <= cap)%nat -> (cap <= bcap)%nat -> Forall in_range ps ->
+  exists bs, blocks_of md bcap (rows_of cap ps) = (bs, Ok tt) /\
+    concat (map block_pixels bs) = ps /\ Forall (block_ok bcap) bs.
+Proof. exact batch_flatten. Qed.
+
+(* a window of w x rows pixels with any colour list is decoded row-major: the specification's walk
+   over the window is the batcher's reading of a block *)
+Theorem C03_block_row_major : forall enc p o sx w (rows : nat) (y : Z) (cs : list Z),
+  zip_rows enc p o sx y w rows cs = map (pxq enc p o) (block_pixels_from sx y w rows cs).
+Proof. exact zip_rows_block. Qed.
+
+(* draw_iter with ARBITRARY i32 points: with the feature and without it the controller's write
+   history grows by the same list — one entry per in-bounds pixel, in input order, at the oriented
+   cell — which is also what drawing those pixels one by one with set_pixel leaves; every call is Ok *)
+Theorem C03_batch_equiv : forall c st k (ps : list pixel),
+  valid_cfg c (d_opts st) -> madctl_ok st -> ctl_matches c (d_opts st) k ->
+  (1 <= c_rowcap c)%nat -> (c_rowcap c <= c_blockcap c)%nat ->
+  Forall (fun q => let '(x, y, _) := q in i32 x /\ i32 y) ps ->
+  let cb := with_batch c true in
+  let cn := with_batch c false in
+  let prog := map set_px_op (filter (in_bbox (d_opts st)) ps) in
+  let ws := map (pxq (c_enc c) (panel_of (d_opts st)) (o_orient (d_opts st))) (filter (in_bbox (d_opts st)) ps) in
+  writes (ctl_run k (exec_trace cb st [PDrawIter ps])) = writes k ++ ws /\
+  writes (ctl_run k (exec_trace cn st [PDrawIter ps])) = writes k ++ ws /\
+  writes (ctl_run k (exec_trace c st prog)) = writes k ++ ws /\
+  exec_all_ok cb st [PDrawIter ps] = true /\ exec_all_ok cn st [PDrawIter ps] = true /\
+  exec_all_ok c st prog = true.
+Proof. exact draw_iter_batch_equiv. Qed.
+
+(* batching never needs more address windows than pixel-by-pixel drawing, which needs one per
+   in-bounds pixel *)
+Theorem C03_windows : forall c st (ps : list pixel),
+  valid_cfg c (d_opts st) -> (1 <= c_rowcap c)%nat -> (c_rowcap c <= c_blockcap c)%nat ->
+  let t := fst (fst (step c st (PDrawIter ps))) in
+  0 <= count_ramwr t <= Z.of_nat (length (filter (in_bbox (d_opts st)) ps)) /\
+  (c_batch c = false -> count_ramwr t = Z.of_nat (length (filter (in_bbox (d_opts st)) ps))).
+Proof. exact draw_iter_windows. Qed.
+
+(* Debug and Release builds of any well-formed program: identical L1 trace, identical results,
+   identical final driver state (so also identical controller history and flags) *)
+Theorem C03_mode_indep : forall c m ops st,
+  valid_cfg c (d_opts st) -> madctl_ok st ->
+  (1 <= c_rowcap c)%nat -> (c_rowcap c <= c_blockcap c)%nat -> prog_wf (d_opts st) ops ->
+  exec (with_mode c m) st ops = exec (with_mode c Debug) st ops.
+Proof. exact exec_mode_indep. Qed.
+
+Theorem C03_mode_indep_decoded : forall c ops st k,
+  valid_cfg c (d_opts st) -> madctl_ok st -> ctl_matches c (d_opts st) k ->
+  (1 <= c_rowcap c)%nat -> (c_rowcap c <= c_blockcap c)%nat -> prog_wf (d_opts st) ops ->
+  let cd := with_mode c Debug in
+  let cr := with_mode c Release in
+  exec_all_ok cd st ops = true /\ exec_all_ok cr st ops = true /\
+  writes (ctl_run k (exec_trace cd st ops)) = writes (ctl_run k (exec_trace cr st ops)) /\
+  k_flags (ctl_run k (exec_trace cd st ops)) = k_flags (ctl_run k (exec_trace cr st ops)) /\
+  snd (exec cd st ops) = snd (exec cr st ops).
+Proof. exact draw_mode_indep. Qed.
+
+(* the batcher itself does not depend on the profile *)
+Theorem C03_batcher_mode_indep : forall cap bcap (ps : list pixel),
+  (1 <= cap)%nat -> (cap <= bcap)%nat -> Forall in_range ps ->
+  blocks_of Debug bcap (rows_of cap ps) = blocks_of Release bcap (rows_of cap ps).
+Proof. exact batch_mode_indep. Qed.
+
+(* ---- non-vacuity: the same scattered / contiguous / off-screen pixel list, with and without the
+   feature, on a rotated mirrored display: one history, fewer windows with batching ---- *)
+Definition ex_c b := {| c_md := Debug; c_batch := b; c_fw := 240; c_fh := 320; c_enc := fun v => [v; v + 1];
+                        c_rowcap := 3; c_blockcap := 6 |}.
+Definition ex_o := {| o_bgr := false; o_orient := {| rotn := D90; mir := true |}; o_inv := false;
+                      o_btt := false; o_rtl := false; o_w := 100; o_h := 50; o_ox := 3; o_oy := 7 |}.
+Definition ex_st := fresh_state ex_o.
+Definition ex_k := ctl_run (power_on 240 320) [ECmd 0x36 [madctl_of_opts ex_o]].
+(* a 4 x 2 block (rows cut at capacity 3), a pixel drawn twice, off-screen pixels in between *)
+Definition ex_ps : list pixel :=
+  [ (10, 20, 1); (11, 20, 2); (12, 20, 3); (13, 20, 4); (-5, 20, 99);
+    (10, 21, 5); (11, 21, 6); (12, 21, 7); (13, 21, 8); (50, 0, 98); (0, 100, 97);
+    (49, 99, 9); (49, 99, 10); (0, 0, 11) ].
+
+Example C03_ex_hyps : forall b,
+  valid_cfg (ex_c b) (d_opts ex_st) /\ madctl_ok ex_st /\ ctl_matches (ex_c b) (d_opts ex_st) ex_k /\
+  (1 <= c_rowcap (ex_c b))%nat /\ (c_rowcap (ex_c b) <= c_blockcap (ex_c b))%nat /\
+  Forall (fun q : pixel => let '(x, y, _) := q in i32 x /\ i32 y) ex_ps /\ Forall in_range (filter (in_bbox ex_o) ex_ps).
+Proof.
+  intros b.
+  split; [unfold valid_cfg; cbn; lia|]. split; [reflexivity|].
+  split; [unfold ctl_matches; vm_compute; repeat split|].
+  split; [cbn; lia|]. split; [cbn; lia|].
+  split; [unfold ex_ps, i32; change (2 ^ 31) with 2147483648; repeat constructor; lia|].
+  assert (E : filter (in_bbox ex_o) ex_ps =
+              [ (10, 20, 1); (11, 20, 2); (12, 20, 3); (13, 20, 4); (10, 21, 5); (11, 21, 6); (12, 21, 7);
+                (13, 21, 8); (49, 99, 9); (49, 99, 10); (0, 0, 11) ]) by (vm_compute; reflexivity).
+  rewrite E. unfold in_range. repeat constructor; lia.
+Qed.
+
+Example C03_ex_run :
+  writes (ctl_run ex_k (exec_trace (ex_c true) ex_st [PDrawIter ex_ps])) =
+  writes (ctl_run ex_k (exec_trace (ex_c false) ex_st [PDrawIter ex_ps])) /\
+  length (writes (ctl_run ex_k (exec_trace (ex_c true) ex_st [PDrawIter ex_ps]))) = 11%nat /\
+  count_ramwr (exec_trace (ex_c true) ex_st [PDrawIter ex_ps]) = 7 /\
+  count_ramwr (exec_trace (ex_c false) ex_st [PDrawIter ex_ps]) = 11 /\
+  exec_trace (ex_c true) ex_st [PDrawIter ex_ps] <> exec_trace (ex_c false) ex_st [PDrawIter ex_ps].
+Proof. vm_compute. repeat split. discriminate. Qed.
